@@ -29,6 +29,7 @@ func main() {
 	ctx := fs.Int("ctx", 0, "context bound (run)")
 	race := fs.Bool("race", false, "HB race check (run)")
 	maxPaths := fs.Int("maxpaths", 0, "path cap (run)")
+	randChoice := fs.Bool("randchoice", false, "rand.Float64 as a 3-way choice (run)")
 	switch os.Args[1] {
 	case "check":
 		fs.Parse(os.Args[4:])
@@ -71,7 +72,7 @@ func main() {
 			os.Exit(2)
 		}
 		fmt.Printf("loaded in %.1fs\n", l.LoadS)
-		in := Inst{Pkg: os.Args[2], Fn: os.Args[3], Args: args, Unwind: *unwind, Ctx: *ctx, Race: *race, MaxPaths: *maxPaths}
+		in := Inst{Pkg: os.Args[2], Fn: os.Args[3], Args: args, Unwind: *unwind, Ctx: *ctx, Race: *race, MaxPaths: *maxPaths, RandChoice: *randChoice}
 		opt := options{workers: *workers, solver: *solver, timeoutMs: *timeout, samplesPer: 3, trace: *trace}
 		res, st, err := explore(l, []Inst{in}, opt)
 		if err != nil {
